@@ -2,6 +2,7 @@
 import collections
 import itertools
 import json
+from mc import strictjson
 import os
 import shutil
 import tempfile
@@ -359,7 +360,7 @@ def _dir_case(case):
         for n in NAMES:
             ref = reference((n, plugins))
             if ref[0] == 'doc':
-                docj = json.loads(ref[1])
+                docj = strictjson.loads(ref[1])
                 uhb = PELS[n][48 + 10], int.from_bytes(PELS[n][48 + 18:48 + 20], 'big')     # severity byte, action flags
                 if rsel.selected(uhb[0], uhb[1], every='-E' in a, s='-s' in a, N='-N' in a, H='-H' in a, t='-t' in a,
                                  only='-O' in a, groups=groups):
@@ -370,7 +371,7 @@ def _dir_case(case):
         r = clidrv.run_main(['-p', d] + case['args'])
         imphook.uninstall()
         try:
-            got = json.loads(r.stdout)
+            got = strictjson.loads(r.stdout)
         except Exception as e:
             return [{'key': 'C19:dir-not-json', 'what': '%s: %s' % (case['args'], e), 'case': case}]
         if '-l' in case['args']:
